@@ -38,7 +38,8 @@ let handle line =
   match Static_cmds.static_cmd cmd tk with
   | Some r -> r
   | None -> (match Sched_cmds.sched_cmd cmd tk with Some r -> r | None ->
-             (match Build_cmds.build_cmd cmd tk with Some r -> r | None -> time_cmd cmd tk))
+             (match Build_cmds.build_cmd cmd tk with Some r -> r | None ->
+              (match Attrs_cmds.attrs_cmd cmd tk with Some r -> r | None -> time_cmd cmd tk)))
 
 let () =
   try
